@@ -463,8 +463,9 @@ theorem processTextLoop_eC (T : Tables) (txt : Bytes) (lower : Token → Ctx →
       | byte b => exact ih _ _ _
       | char ch =>
         dsimp only
-        simp only [eC_ld]
-        split <;> exact ih _ _ _
+        by_cases hd : c.ld.depth > 0
+        · simp only [eC_ld, hd, ↓reduceIte]; exact ih _ _ _
+        · simp only [eC_ld, hd, ↓reduceIte]; exact ih _ _ _
       | text fragment =>
         dsimp only
         refine bind_sim (flushBuffer_eC c buf range) ?_
@@ -473,16 +474,197 @@ theorem processTextLoop_eC (T : Tables) (txt : Bytes) (lower : Token → Ctx →
         cases c1.ld.incRefs with
         | none => simp only [mapOk_errAt]
         | some ld1 =>
-          dsimp only
-          trace_state
-          sorry
---NEXT--
+          dsimp only [Ctx.log]
+          cases ld1.incDepth with
+          | none => simp only [mapOk_errAt]
+          | some ld2 =>
+            dsimp only
+            refine bind_sim (f := eC) ?_ ?_
+            · refine Eq.trans ?_ (runTokens_eC lower hl _ _ _)
+              rfl
+            · intro c2
+              by_cases hne : (c2.parentPrefixes.length != c2.entityFloor) = true
+              · simp only [eC_parentPrefixes, eC_entityFloor, hne, ↓reduceIte]; rfl
+              · simp only [eC_parentPrefixes, eC_entityFloor, hne, ↓reduceIte]
+                refine Eq.trans ?_ (ih _ _ _)
+                rfl
+theorem processText_eC (T : Tables) (txt : Bytes) (lower : Token → Ctx → Res Ctx)
+    (hl : StepOk lower) (c : Ctx) (text : Span) (range : Range) :
+    processText T txt lower (eC c) text range =
+      Res.mapOk eC (processText T txt lower c text range) := by
+  unfold processText
+  split
+  · exact appendText_eC _ _ _
+  · dsimp only
+    refine bind_sim (processTextLoop_eC T txt lower hl range _ _ _ c) ?_
+    intro ⟨buf, c1⟩
+    exact flushBuffer_eC _ _ _
+
+theorem tokenStep_ok (T : Tables) (txt : Bytes) (lower : Token → Ctx → Res Ctx)
+    (hl : StepOk lower) : StepOk (tokenStep T txt lower) := by
+  intro t c
+  unfold tokenStep
+  dsimp only
+  rw [log_eC]
+  generalize c.log _ = c'
+  cases t with
+  | pi target value range =>
+    dsimp only
+    refine bind_sim (resetAfterText_eC c') ?_
+    intro c1
+    refine bind_sim (appendNode_eC _ _ _) ?_
+    intro ⟨c2, i⟩
+    rfl
+  | comment text range =>
+    dsimp only
+    refine bind_sim (resetAfterText_eC c') ?_
+    intro c1
+    refine bind_sim (appendNode_eC _ _ _) ?_
+    intro ⟨c2, i⟩
+    rfl
+  | entityDecl name value => rfl
+  | elementStart pfx loc start =>
+    dsimp only
+    refine bind_sim (resetAfterText_eC c') ?_
+    intro c1
+    split
+    · simp only [mapOk_errPos]
+    · rfl
+  | «attribute» range qnameLen eqLen pfx loc value => exact processAttribute_eC _ _ _ _ _ _ _ _ _
+  | elementEnd e range =>
+    dsimp only
+    refine bind_sim (resetAfterText_eC c') ?_
+    intro c1
+    exact processElement_eC _ _ _ _
+  | text text range => exact processText_eC T txt lower hl _ _ _
+  | cdata text range => exact processCdata_eC _ _ _
+
+theorem token_ok (T : Tables) (txt : Bytes) (d : Nat) : StepOk (token T txt d) := by
+  induction d with
+  | zero => intro t c; rfl
+  | succ d ih => exact tokenStep_ok T txt _ ih
+/-! ### The read API sees no ranges -/
+
+theorem getNodeUnwrap_erase (d : Doc) (i : Nat) :
+    Api.getNodeUnwrap (eraseDoc d) i = Res.mapOk eraseNode (Api.getNodeUnwrap d i) := by
+  unfold Api.getNodeUnwrap
+  simp only [eraseDoc_nodes, Array.getElem?_map]
+  cases d.nodes[i]? <;> rfl
+
+theorem follow_erase (d : Doc) (l : Option Nat) : Api.follow (eraseDoc d) l = Api.follow d l := by
+  unfold Api.follow
+  simp only [eraseDoc_nodes, Array.size_map]
+
+/-- Reading a node and continuing with something that does not look at the range. -/
+theorem getNode_bind_erase {β} (d : Doc) (i : Nat) (k0 k1 : NodeData → Res β)
+    (hk : ∀ n, k0 (eraseNode n) = k1 n) :
+    (Api.getNodeUnwrap (eraseDoc d) i >>= k0) = (Api.getNodeUnwrap d i >>= k1) := by
+  rw [getNodeUnwrap_erase]
+  cases Api.getNodeUnwrap d i <;> simp [hk]
+
+theorem lastChild_erase (d : Doc) (i : Nat) : Api.lastChild (eraseDoc d) i = Api.lastChild d i := by
+  unfold Api.lastChild
+  exact getNode_bind_erase d i _ _ (fun n => follow_erase d _)
+
+theorem prevSibling_erase (d : Doc) (i : Nat) :
+    Api.prevSibling (eraseDoc d) i = Api.prevSibling d i := by
+  unfold Api.prevSibling
+  exact getNode_bind_erase d i _ _ (fun n => follow_erase d _)
+
+theorem firstChild_erase (d : Doc) (i : Nat) :
+    Api.firstChild (eraseDoc d) i = Api.firstChild d i := by
+  unfold Api.firstChild
+  refine getNode_bind_erase d i _ _ (fun n => ?_)
+  simp only [eraseNode_lastChild, eraseDoc_nodes, Array.size_map]
+
+theorem nextSibling_erase (d : Doc) (i : Nat) :
+    Api.nextSibling (eraseDoc d) i = Api.nextSibling d i := by
+  unfold Api.nextSibling
+  refine getNode_bind_erase d i _ _ (fun n => ?_)
+  simp only [eraseNode_nextSubtree]
+  cases n.nextSubtree with
+  | none => rfl
+  | some j => exact getNode_bind_erase d j _ _ (fun m => rfl)
+
+theorem kindOf_erase (d : Doc) (i : Nat) : Api.kindOf (eraseDoc d) i = Api.kindOf d i := by
+  unfold Api.kindOf
+  exact getNode_bind_erase d i _ _ (fun n => rfl)
+
+theorem isElement_erase (d : Doc) (i : Nat) : Api.isElement (eraseDoc d) i = Api.isElement d i := by
+  unfold Api.isElement
+  rw [kindOf_erase]
+
+theorem children_erase (d : Doc) (i : Nat) : Api.children (eraseDoc d) i = Api.children d i := by
+  unfold Api.children
+  simp only [firstChild_erase, lastChild_erase]
+
+theorem childrenNext_erase (d : Doc) (it : Api.ChildrenIt) :
+    it.next (eraseDoc d) = it.next d := by
+  unfold Api.ChildrenIt.next
+  simp only [nextSibling_erase]
+
+theorem childrenList_erase (d : Doc) (fuel : Nat) (it : Api.ChildrenIt) :
+    Api.childrenList (eraseDoc d) fuel it = Api.childrenList d fuel it := by
+  induction fuel generalizing it with
+  | zero => rfl
+  | succ fuel ih =>
+    unfold Api.childrenList
+    simp only [childrenNext_erase, ih]
+
+theorem findElement_erase (d : Doc) (l : List Nat) :
+    Api.findElement (eraseDoc d) l = Api.findElement d l := by
+  induction l with
+  | nil => rfl
+  | cons j r ih =>
+    unfold Api.findElement
+    simp only [isElement_erase, ih]
+
+theorem rootHasElement_erase (d : Doc) : rootHasElement (eraseDoc d) = rootHasElement d := by
+  unfold rootHasElement Api.fuelN
+  simp only [children_erase, childrenList_erase, findElement_erase, eraseDoc_nodes, Array.size_map]
+
+/-! ### `parse` -/
+
+theorem finish_eC (c : Ctx) : finish (eC c) = Res.mapOk eC (finish c) := by
+  unfold finish
+  simp only [eC_doc, rootHasElement_erase]
+  refine bind_same ?_
+  intro has
+  simp only [eC_parentPrefixes]
+  cases has with
+  | false => rfl
+  | true =>
+    by_cases h : c.parentPrefixes.length > 1
+    · simp only [Bool.not_true, Bool.false_eq_true, ↓reduceIte, h]; rfl
+    · simp only [Bool.not_true, Bool.false_eq_true, ↓reduceIte, h]; rfl
+
+theorem initCtx_erase (txt : Bytes) (opt : Opt) :
+    initCtx txt { opt with positions := false } =
+      Res.mapOk eC (initCtx txt { opt with positions := true }) := by
+  unfold initCtx
+  refine bind_same ?_
+  intro ns
+  simp [eC, eraseDoc, eraseNode, rootNode]
+
+theorem parseCtx_erase (T : Tables) (txt : Bytes) (d : Nat) (opt : Opt) :
+    parseCtx T txt d { opt with positions := false } =
+      Res.mapOk eC (parseCtx T txt d { opt with positions := true }) := by
+  unfold parseCtx
+  refine bind_sim (initCtx_erase txt opt) ?_
+  intro c
+  dsimp only
+  refine bind_sim (runTokens_eC _ (token_ok T txt d) _ _ c) ?_
+  intro c1
+  exact finish_eC c1
 end PosIndep
 
 /-- **`positions` changes nothing but the stored ranges** (all inputs, all other options). -/
 theorem parse_positions_erase (T : Tables) (txt : Bytes) (opt : Opt) :
     parse T txt { opt with positions := false } =
       Res.mapOk eraseDoc (parse T txt { opt with positions := true }) := by
-  sorry
+  unfold parse
+  refine PosIndep.bind_sim (PosIndep.parseCtx_erase T txt depthFuel opt) ?_
+  intro c
+  rfl
 
 end Rox.Lemmas
